@@ -309,8 +309,11 @@ func (f *Frame) lookupVar(name string, st *state, li *loopInfo, edgeFrom *ssa.Ba
 	}
 	// enclosing loops' header phis (variable modified only in an outer loop)
 	var at *ssa.BasicBlock
+	atIdx := -1 // -1: entry of block "at" (loop header); >= 0: before instruction atIdx of block "at"
 	if li != nil {
 		at = li.header
+	} else if f.atBlock != nil {
+		at, atIdx = f.atBlock, f.atIdx
 	}
 	var best ssa.Value
 	var bestAddr bool
@@ -325,11 +328,14 @@ func (f *Frame) lookupVar(name string, st *state, li *loopInfo, edgeFrom *ssa.Ba
 			if !ok || d.Object() == nil || d.Object().Name() != name {
 				continue
 			}
-			if b == at {
+			if b == at && atIdx < 0 {
 				// only phis of the header itself are visible at its entry
 				if _, isPhi := d.X.(*ssa.Phi); !isPhi {
 					continue
 				}
+			}
+			if b == at && atIdx >= 0 && idx >= atIdx {
+				continue
 			}
 			if _, defined := f.vals[d.X]; !defined {
 				if _, isConst := d.X.(*ssa.Const); !isConst {
